@@ -239,8 +239,25 @@ def run(repo):
                                      for v, stt in self.defs[a.id]]
                         else:
                             cases = [(a, frozenset())]
+                    # A or B as the set: A where A is truthy, else B
+                    more = []
                     for val, extra in cases:
-                        st = state | extra
+                        if isinstance(val, ast.BoolOp) and isinstance(val.op, ast.Or) and len(val.values) == 2:
+                            more.append((val.values[0], extra | {('cond', True, ntext(val.values[0]))}))
+                            more.append((val.values[1], extra | {('cond', False, ntext(val.values[0]))}))
+                        else:
+                            more.append((val, extra))
+                    cases = more
+                    here = self.local_state(node, n, state)       # the call may sit in an arm of a conditional expression
+                    for val, extra in cases:
+                        st = here | extra
+                        for f in extra:
+                            if f[0] == 'cond':
+                                from rsx.flow import _add_clauses, clauses as _cls
+                                st = _add_clauses(st, _cls(ast.parse(f[2], mode='eval').body, f[1]))
+                        # passing the constraint's own set is the same as passing none
+                        if val is not None and ntext(val) == recv + '.support':
+                            val = None
                         if val is None or (isinstance(val, ast.Constant) and val.value is None):
                             if not (own & st or holds(st, recv + '.support') or holds(st, recv + '.support is not None')):
                                 self.bad.append((n, 'le_to_rc() is called without a set on a path that '
@@ -336,18 +353,26 @@ def run(repo):
         txt = ' '.join(ntext(r) for r in raises).lower()
         has = 'undefined' in txt
         guard_ok = False
-        from rsx.flow import literal
-        for n in walk_no_nested(fi.node):
-            if not isinstance(n, ast.If):
-                continue
-            a, pol = literal(n.test)
-            raising = any(isinstance(x, ast.Raise) for x in n.body)
-            raising_else = any(isinstance(x, ast.Raise) for x in n.orelse)
-            # the raising side is the one where the set is missing
-            for atom, missing_when in (('ambset', False), ('ambset is None', True), ('self.obj_ambiguity is None', True),
-                                       ('self.obj_ambiguity', False)):
-                if a == atom and ((raising and pol == missing_when) or (raising_else and pol != missing_when)):
-                    guard_ok = True
+        from rsx.flow import MustFlow as _MF
+
+        class _AtRaise(_MF):
+            def __init__(self):
+                super().__init__()
+                self.hits = []
+
+            def refine(self, test, branch, state):
+                return state
+
+            def stmt(self, st, state):
+                if isinstance(st, ast.Raise):
+                    self.hits.append(state)
+                return super().stmt(st, state)
+        ar = _AtRaise()
+        ar.run(body_stmts(fi))
+        # some raise is reached exactly where the objective's set is known to be missing
+        for st_ in ar.hits:
+            if st_ is not None and (holds(st_, 'self.obj_ambiguity is None') or holds(st_, 'self.obj_ambiguity', False)):
+                guard_ok = True
         res.inst({'selection': fq, 'raises_when_undefined': guard_ok}, guard_ok)
         if not guard_ok:
             res.fail(Finding(RULE, fq, 'undefined-set -> raise',
